@@ -2,4 +2,4 @@ import props.trees as T
 
 
 def run(chk):
-    return T.run(chk, "C14", T.view_c14, ["PV.Props.C14"], "C14 trees")
+    return T.run(chk, "C14", T.view_c14, ["PV.Props.C14", "PV.Props.C12clear"], "C14 trees")
